@@ -3,6 +3,11 @@
 //!   kvharness eval <prop>                   -> reads case lines on stdin, prints one `I ...` line each
 mod rng;
 mod c10;
+mod ser;
+mod lay;
+mod c04;
+mod lall;
+mod cfggen;
 
 use std::io::{BufRead, Write};
 
@@ -22,6 +27,8 @@ fn main() {
             let mut out = std::io::BufWriter::new(out.lock());
             let lines = match prop {
                 "C10" => c10::gen(tier, seed),
+                "C04" => c04::gen(tier, seed),
+                "LALL" => lall::gen(tier, seed),
                 _ => {
                     eprintln!("unknown property {prop}");
                     std::process::exit(2);
@@ -44,6 +51,7 @@ fn main() {
                 let p = prop.to_string();
                 let res = std::panic::catch_unwind(move || match p.as_str() {
                     "C10" => c10::eval(&l2),
+                    "C04" | "LALL" => lay::eval(&l2),
                     _ => "bad-prop".to_string(),
                 });
                 let res = match res {
@@ -60,6 +68,29 @@ fn main() {
                     }
                 };
                 writeln!(out, "I {res}").unwrap();
+                out.flush().unwrap();
+            }
+        }
+        "expand" => {
+            let stdin = std::io::stdin();
+            let out = std::io::stdout();
+            let mut out = out.lock();
+            for line in stdin.lock().lines() {
+                let line = line.unwrap();
+                if line.trim().is_empty() {
+                    continue;
+                }
+                let l2 = line.clone();
+                let p = prop.to_string();
+                let res = std::panic::catch_unwind(move || match p.as_str() {
+                    "C04" | "LALL" => lay::expand(&l2),
+                    _ => l2.clone(),
+                });
+                let res = match res {
+                    Ok(s) => s,
+                    Err(_) => "EXPAND-CRASH".to_string(),
+                };
+                writeln!(out, "{res}").unwrap();
                 out.flush().unwrap();
             }
         }
